@@ -25,7 +25,7 @@ def base_doc():
     comps = []
     for st, name in COMPS:
         comps.append({'stage': st, 'name': name,
-                      'command': {'executable': 'echo', 'arguments': '%(v)s %(g)s %(s)s'},
+                      'command': {'executable': 'echo', 'arguments': '%(v)s %(g)s %(s)s %(k)s'},
                       'variables': {'v': 'own-%s%d' % (name, st)},
                       'workflowAttributes': {'maxRestarts': 2}})
     comps[1]['override'] = {'p': {'command': {'arguments': 'on-p %(v)s %(g)s %(s)s'}}}
@@ -33,8 +33,8 @@ def base_doc():
         'platforms': ['default', 'p'],
         'components': comps,
         'variables': {
-            'default': {'global': {'g': 'dg', 's': 'dgs'}, 'stages': {0: {'s': 'ds0'}, 1: {'s': 'ds1'}}},
-            'p': {'global': {'g': 'pg'}, 'stages': {0: {'s': 'ps0'}, 1: {}}},
+            'default': {'global': {'g': 'dg', 's': 'dgs', 'k': 1}, 'stages': {0: {'s': 'ds0'}, 1: {'s': 'ds1'}}},
+            'p': {'global': {'g': 'pg', 'k': 1}, 'stages': {0: {'s': 'ps0'}, 1: {}}},
         },
     }
 
@@ -82,11 +82,15 @@ def apply_mutator(ctx, concrete, cfg, rnd):
         elif m == 'remove_component_option':
             concrete.remove_component_option(target(), ctx.choice('route%d' % rnd, ['#command.arguments', '#workflowAttributes.maxRestarts', 'v']))
         elif m == 'set_global_variable':
-            concrete.set_global_variable(ctx.choice('var%d' % rnd, ['g', 'fresh']), tok)
+            var = ctx.choice('var%d' % rnd, ['g', 'fresh', 'k'])
+            # for the numeric variable: values that compare equal to the old one (1) but render differently
+            concrete.set_global_variable(var, ctx.choice('val%d' % rnd, [True, 1.0, 2]) if var == 'k' else tok)
         elif m == 'set_stage_variable':
             concrete.set_stage_variable(ctx.choice('stage%d' % rnd, [0, 1]), 's', tok)
         elif m == 'set_platform_global_variable':
-            concrete.set_platform_global_variable('g', tok, ctx.choice('plat%d' % rnd, [None, 'default', 'p']))
+            var = ctx.choice('var%d' % rnd, ['g', 'k'])
+            concrete.set_platform_global_variable(var, ctx.choice('val%d' % rnd, [True, 1.0, 2]) if var == 'k' else tok,
+                                                  ctx.choice('plat%d' % rnd, [None, 'default', 'p']))
         elif m == 'set_platform_stage_variable':
             concrete.set_platform_stage_variable(ctx.choice('stage%d' % rnd, [0, 1]), 's', tok,
                                                  ctx.choice('plat%d' % rnd, [None, 'default', 'p']))
